@@ -177,12 +177,27 @@ func (r *Run) add(class, format string, a ...any) {
 	r.Findings = append(r.Findings, Finding{class, fmt.Sprintf("step %d: %s", r.step, what)})
 }
 
+// buffered = the UNDECIDED traces of the real buffers. A trace object that is still referenced by the
+// buffer but already carries Sent=true has been decided and handed over; whether the buffer entry is
+// released in the same handler call is C07's subject, not a forwarding question, so it is not counted here.
 func (r *Run) buffered() map[string]fx.TraceView {
 	m := map[string]fx.TraceView{}
 	for _, v := range r.F.BufferedAll() {
-		m[v.TraceID] = v
+		if !v.Sent {
+			m[v.TraceID] = v
+		}
 	}
 	return m
+}
+
+func (r *Run) undecided() []fx.TraceView {
+	var out []fx.TraceView
+	for _, v := range r.F.BufferedAll() {
+		if !v.Sent {
+			out = append(out, v)
+		}
+	}
+	return out
 }
 
 func (r *Run) open(id string) *inc {
@@ -506,7 +521,7 @@ func (r *Run) Close() {
 	if m := int(r.S.Traces.MaxExpiredTraces); m > 0 {
 		rounds += len(r.S.IDs)/m + 1
 	}
-	for k := 0; k < rounds && len(r.F.BufferedAll()) > 0; k++ {
+	for k := 0; k < rounds && len(r.undecided()) > 0; k++ {
 		for w := 0; w < r.S.Workers; w++ {
 			r.Step(Ev{Op: "tick", W: w})
 		}
@@ -514,7 +529,7 @@ func (r *Run) Close() {
 	for k := 0; k < 4*len(r.S.IDs)+4 && len(r.F.Outgoing()) > 0; k++ {
 		r.Step(Ev{Op: "send"})
 	}
-	for _, v := range r.F.BufferedAll() {
+	for _, v := range r.undecided() {
 		r.add("c02:never-decided", "trace %s (%d spans) is still undecided %v after its last deadline and %d send ticks of its worker", v.TraceID, len(v.Spans), flush, rounds)
 	}
 	if n := len(r.F.Outgoing()); n > 0 {
